@@ -141,8 +141,9 @@ def r10_2(ctx, fx):
             n += 1
             inst = "Partially_Reduced_Product::%s" % f.name
             want = CONNECTIVE[f.name]
+            comps = sorted([f.root(f.call_obj(l)), f.root(f.call_obj(rr))])
             ok = e["op"] == want and f.call_name(l) == f.name and f.call_name(rr) == f.name \
-                and f.root(f.call_obj(l)) == ("this", "d1") and f.root(f.call_obj(rr)) == ("this", "d2")
+                and comps == [("this", "d1"), ("this", "d2")]
             if ok:
                 ctx.ok(rid, inst, f.where(r))
             else:
